@@ -974,7 +974,9 @@ class Program:
         real = {name: m.tree for name, m in self.modules.items() if not name.endswith("_twzsa_control")}
         from .inline import specialise_callbacks
 
-        spec = specialise_callbacks(real)
+        from .inline import specialise_record_params
+
+        spec = specialise_callbacks(real) + specialise_record_params(real, set(KNOWN_CLASSES))
         self.inlined: List[str] = spec + inline_new_helpers(real, set(KNOWN_FUNCTIONS))
         if self.inlined:
             for t in real.values():
